@@ -2,7 +2,7 @@
 # Rebuild the refinement development (dependency order).  Usage: sh Refine/build.sh [first-file]
 # Run from anywhere; compiles with -Q /verif/coq PFDL.  Never calls make.
 cd /verif/coq || exit 1
-FILES="Refine/Eval.v Refine/Layout.v Refine/Mach.v Refine/GenSpec.v Refine/Abs.v Refine/Sim.v Refine/Main.v Properties/Refinement.v"
+FILES="Refine/Eval.v Refine/Layout.v Refine/Mach.v Refine/GenSpec.v Refine/Abs.v Refine/SubstIdx.v Refine/SrcKeys.v Refine/Sim.v Refine/Main.v Refine/Transfer.v Refine/TransferC02.v Properties/Refinement.v Properties/RefinementTransfer.v"
 for f in $FILES; do
   [ -f "$f" ] || continue
   if [ ! -f "${f}o" ] || [ "$f" -nt "${f}o" ] || [ -n "$FORCE" ]; then FORCE=1; fi
